@@ -42,10 +42,18 @@ CHECKS = {
    text="For seeded base histories ending in infeasible_elimination, pruned composition or tree arithmetic the LP calls of the operation are counted through the hook, then the operation is repeated under every fault plan: each single call position x {Error, Unbounded, perturbed witness, far-off witness}, all calls faulted (thorough: pairs and seeded subsets). Per plan: no panic, well-formed tree, cached witnesses/verdicts sound, and z3 decides for every piece of the un-pruned reference (tightened by tau) that the faulted result does not differ in definedness or value.",
    note=T_NOTE + "; fault model = the cfg(affinitree_verif) hook overriding the answer of Polytope::solve_linprog at chosen call indices",
    technique="exhaustive enumeration of LP fault positions (up to the subset bound) with an SMT (z3 QF_LRA) function-preservation oracle over all inputs"),
+ "C14": dict(engine="L", cat="model_checking", ref="5 C14, 3.2",
+   text="The real generic Polytope functions (intersection, intersection_n, translate, apply_pre, apply_post, rotate, hypercube, hyperrectangle/axis_bounds with every pattern of infinite bounds, unbounded, empty, cross_polytope, from_normal, simplex, distance/distance_raw, contains) are compiled at a symbolic-real scalar and executed with every matrix entry, bias, point and argument symbolic (rows/dims <=3, <=4 thorough); every comparison in the code is a fork decided by z3 and the set-exactness law is asserted on every feasible path. apply_post/rotate are stated in pre-image form with a symbolic inverse and in image form with concrete exactly-invertible matrices; simplex through its documented vertices and recession cone.",
+   note="exact real arithmetic stands in for f64 (counterexamples are replayed through the f64 instantiation); bounded by the dimension tuples listed in the evidence; z3 (QF_NRA) trusted; laws with the built-in 1e-8 containment tolerance are stated with the same tolerance on both sides",
+   technique="path-exhaustive symbolic execution of the real generic code at a symbolic-real scalar, z3 (QF_NRA/LRA) on every branch and assertion"),
  "C15": dict(engine="L+T", cat="model_checking", ref="5 C15",
    text="Engine L: the real generic clean-up routines (remove_rows, remove_zero_rows, remove_tautologies, normalize, remove_duplicate_rows) are executed on a symbolic-real scalar with every matrix entry, bias and test point symbolic (rows<=3, dims<=2/3); every branch is a solver query and on every feasible path z3 decides same-point-set and subsequence. Engine T: remove_redundant_row_constraints on seeded systems by category; z3 decides that no point of the result violates a dropped row by a margin, that a canonical-empty result only replaces an empty system, and that no kept row is implied by the others by a margin.",
    note="engine L: exact real arithmetic stands in for f64, tolerance-carrying routines are specified with margins; path exploration bounded by the dimension bound; " + T_NOTE,
    technique="path-exhaustive symbolic execution of the generic code at a symbolic-real scalar with z3 (QF_NRA/LRA) on every branch and assertion; SMT certificate checks for the LP-based routine"),
+ "C16": dict(engine="L", cat="model_checking", ref="5 C16, 3.2",
+   text="The real generic AffFunc code (compose, stack, apply, apply_transpose, + - * / % in three ownership variants, both Neg impls and negate, row, row_iter, from_row_iter, remove_rows, remove_zero_rows, remove_zero_columns, view/to_owned, as_polytope/as_function/new, convert_to for every PolyRepr, identity, zeros, constant, unit, zero_idx, sum, subtraction (all index pairs), rotation, scaling, uniform_scaling, slice (every NaN pattern), translation, chebyshev_center structure) is executed at a symbolic-real scalar with all coefficients and inputs symbolic (dims <=3, <=4/5 thorough); each law is asserted and discharged by z3 on every feasible path.",
+   note="exact real arithmetic stands in for f64 (counterexamples are replayed through the f64 instantiation); % is an uninterpreted function of its operands; bounded by the dimension tuples listed in the evidence",
+   technique="path-exhaustive symbolic execution of the real generic code at a symbolic-real scalar, z3 (QF_NRA/LRA) on every branch and assertion"),
  "C17": dict(engine="T", cat="translation_validation", ref="5 C17",
    text="Every schema generator (dims 1..3/1..5, every row/class, a parameter lattice containing the degenerate points), from_poly on seeded polytopes and from_slice+remove_axes on generated trees is run for real; z3 decides per piece of the produced tree that no real input exists where it differs from the textbook definition written out as an exact piece list (strict/non-strict sides as in the definitions).",
    note=T_NOTE, technique="SMT (z3 QF_LRA) equivalence of exported schema trees against textbook piecewise definitions, all inputs symbolic"),
